@@ -172,6 +172,7 @@ def wf_model(h: H, M, parts=('M0', 'M1', 'M2', 'M3', 'M4', 'M5', 'M6')):
         out += [
             ('M4.bucket.complete', FA([s], z3.Implies(is_assoc(h, M, s), z3.And(h.has(D, VStr(h.f('clsname', s))),
                                                                                h.cnt(v_a(h.val(D, VStr(h.f('clsname', s)))), s) == 1)), [h.cnt(SL, s)])),
+            ('M4.bucket.nonempty', FA([k], z3.Implies(h.has(D, k), h.len(v_a(h.val(D, k))) > 0), [h.has(D, k)])),
             ('M4.bucket.sound', FA([k, s], z3.Implies(z3.And(h.has(D, k), h.cnt(v_a(h.val(D, k)), s) > 0),
                                                       z3.And(is_assoc(h, M, s), VStr(h.f('clsname', s)) == k, h.cnt(v_a(h.val(D, k)), s) == 1)),
                                    [h.cnt(v_a(h.val(D, k)), s)])),
